@@ -75,11 +75,12 @@ extern int mpt_stream_sync(MPT_STRUCT(stream) *srm, size_t idlen, const MPT_STRU
 			if (timeout > 0) {
 				timeout = 0;
 			}
-			if ((ret = mpt_queue_recv(&srm->_rd))) {
+			if ((ret = mpt_queue_recv(&srm->_rd)) < 0) {
 				return ret;
 			}
-			if (ret) {
-				break;
+			/* message not complete yet */
+			if (!ret) {
+				continue;
 			}
 		}
 		/* remove processed data */
@@ -111,7 +112,11 @@ extern int mpt_stream_sync(MPT_STRUCT(stream) *srm, size_t idlen, const MPT_STRU
 			ret = mc->cmd(mc->arg, &msg);
 		}
 		else {
-			continue;
+			ret = 0;
+		}
+		/* message is processed, select next one */
+		if (mpt_queue_recv(&srm->_rd) <= 0) {
+			srm->_rd._state.data.msg = -1;
 		}
 		if (ret < 0) {
 			break;
